@@ -14,6 +14,9 @@ RULE = (
     "text is executed by X-RUN under one shared lazily built environment and compared with the reference executor R and with each "
     "other (effect traces, termination class, CALLS/SPBAL monitors).  Non-trivial case = >= 2 distinct effect traces explored."
 )
+RULE += (
+    ' Also CALLARG (14 expressions whose call arguments are calls, in main code and inside a function) under all 64 vectors.'
+)
 ASSUME = [
     "reference IC10 machine M and reference executor R as in C01",
     "two option vectors whose comment-stripped instruction texts are identical behave identically (they are the same program)",
@@ -45,6 +48,9 @@ def build_cases(tier):
         cases += common.split_call_case(c, v64)
     for c in F.func3(tier)[:: (4 if tier == "quick" else 1)]:
         cases.append(dict(c, variants=v64))
+    # calls whose arguments are calls: the outer call's argument slots / pushes around the inner call
+    for c in F.callarg(tier):
+        cases += common.split_call_case(c, v64)
     for c in F.w_alias()[5:]:
         cases.append(dict(c, variants=[{}, {"inline_functions": False}, {"inline_functions": False, "use_push_pop_functions": True}]))
     from .c05 import is_f05b
